@@ -21,13 +21,15 @@ type axis struct {
 }
 
 func (a *axis) getIndex(v float64) int {
-	index := int(math.Floor((v-a.start)/a.size)) + 1
-	if index < 0 {
-		index = 0
-	} else if index >= a.bins {
-		index = a.bins - 1
+	// clamp before converting to int: the conversion of a float
+	// outside the int range does not yield a usable value
+	index := math.Floor((v-a.start)/a.size) + 1
+	if index >= float64(a.bins) {
+		return a.bins - 1
+	} else if !(index >= 0) { // below the first bin, or NaN
+		return 0
 	}
-	return index
+	return int(index)
 }
 
 type bin struct {
